@@ -180,6 +180,11 @@ def _run(ck: Check, probe) -> None:
             if exc is not None and not faults.touches(log2) and after != orig:
                 ck.violation("a failed run modified the file", {"fault": str(exc)[:200]}, "c18-modified")
                 break
+            if exc is None and faults.FIRED[0] and after not in (orig, signed):
+                # the injected error was swallowed inside the library (a worker thread, a broad except) and the call "succeeded"
+                ck.violation("an error raised while signing was swallowed and a partially signed / different file was written",
+                             {"event": p, "events": log2, "file_len_before": len(orig), "file_len_after": len(after), "fully_signed_len": len(signed)}, "c18-partial-output:line-fault")
+                break
             if p > write_at // 3:
                 ck.nontrivial_add((di, p))
         # a fault inside every call of the serializer (once per artifact, once for the final document): file untouched, and the output file
@@ -215,7 +220,11 @@ def _run(ck: Check, probe) -> None:
                 impl.common.canonserialize = impl.signing.canonserialize = real_cs
             ck.evaluations += 1
             if not isinstance(exc, MemoryError):
-                continue            # the library did not route this serialization through the patched name: nothing was injected
+                if cnt[0] >= j and get(fn) not in (orig, signed):
+                    ck.violation("an error raised while serializing was swallowed and a partially signed / different file was written",
+                                 {"serializer_call": j, "of": total_ser, "error": repr(exc)[:120]}, "c18-partial-output:serialize-fault")
+                    break
+                continue            # the library did not route this serialization through the patched name (nothing was injected), or recovered fully
             ck.oracle_checks += 1
             if get(fn) != orig or faults.touches(logs):
                 ck.violation("a failure while serializing (artifact metadata or the final document) left a truncated / modified file: the output was opened before the result was serialized",
@@ -243,7 +252,11 @@ def _run(ck: Check, probe) -> None:
                 impl.signing.serialize_and_sign = real
             ck.evaluations += 1
             if not (isinstance(exc, RuntimeError) and "unplugged" in str(exc)):
-                continue            # the library did not go through the patched name: nothing was injected
+                if calls[0] >= j and get(fn) not in (orig, signed):
+                    ck.violation("an error raised while signing the j-th artifact was swallowed and a partially signed file was written",
+                                 {"artifact_index": j, "of": nart, "opens": log3, "error": repr(exc)[:120]}, "c18-partial-output:sign-fault")
+                    break
+                continue            # the library did not go through the patched name (nothing was injected), or recovered fully
             ck.oracle_checks += 1
             if get(fn) != orig or faults.touches(log3):
                 ck.violation("an error while signing the j-th artifact left a modified file", {"artifact_index": j, "of": nart, "opens": log3}, "c18-sign-fault-modified")
